@@ -133,7 +133,7 @@ func vfC04WGen(rt *rapid.T) *vfC04WCase {
 		default:
 			st.Name = rapid.SampledFrom(qlabels).Draw(rt, "ql") + ".z.test."
 		}
-		if c.ECSOn && rapid.IntRange(0, 2).Draw(rt, "hasecs") == 0 {
+		if rapid.IntRange(0, 2).Draw(rt, "hasecs") == 0 { // with the ECS policy on or off: the option is a fact about the query either way
 			st.ECS = rapid.SampledFrom([]string{"valid", "mapped", "mapped", "mismatch", "v4-long", "hostbits", "family0"}).Draw(rt, "ecskind")
 		}
 		c.Steps = append(c.Steps, st)
@@ -298,6 +298,10 @@ func vfC04WRun(t *testing.T, dir string, c *vfC04WCase) (violation string, trace
 				synthesis := !asked[strings.ToLower(st.Name)+"/"+fmt.Sprint(st.Qtype)] && len(c.W.Resolve(st.Name, st.Qtype).Steps) == 0
 				if synthesis {
 					stats["rfc8198-synthesis"]++
+					// ... and a question that carried a client subnet consumes no shared synthesised denial, whatever the policy
+					if st.ECS != "" {
+						fail("step %d: %s/%s carried a client subnet option (%s, ECS policy on=%v, wire=%v) and was answered from shared denial state without any upstream question", i, st.Name, dns.TypeToString[st.Qtype], st.ECS, c.ECSOn, st.Wire)
+					}
 				}
 				for _, rr := range m.Ns {
 					if !synthesis {
